@@ -5,7 +5,7 @@ from ..core import rule
 from ..index import AnalysisError, dotted, src, walk_no_nested, names_in, dump
 from ..cfg import CFG, const_env_step, eval3, UNK
 from ..domains import linform, Lin, check_pred
-from ..util import outcomes_by_case, node_calls, last_name, own_expr, func_cfg, stmt_of
+from ..util import explore, mk_atoms, outcomes_by_case, node_calls, last_name, own_expr, func_cfg, stmt_of
 from .slots import MOLITER, MOLECULE
 
 FN = 'MoleculeIterator.__iter__'
@@ -522,3 +522,75 @@ def r5(ctx):
     ctx.emit('C07-R5', not bad and n >= 3, MOLECULE, h, f'add_fragment: {n} return paths; ' +
              ('returns True exactly on the paths that stored the fragment' if not bad else f'mismatch on path {bad[0][:300]}'),
              key='add_fragment:return-iff-stored')
+
+
+@rule('C07', 'C07-R6', 'a fragment joins at most one molecule: wherever the iterator offers a fragment to the buffered molecules, the search stops '
+                       'at the first molecule that accepts it, and the per-molecule fragment cap is only tested for a fragment that matches')
+def r6(ctx):
+    f = ctx.fn(MOLITER, 'MoleculeIterator.__iter__')
+    mod = ctx.ix.module(MOLITER)
+    sites = [c for c in walk_no_nested(f) if isinstance(c, ast.Call) and isinstance(c.func, ast.Attribute) and c.func.attr == 'add_fragment']
+    ctx.need('C07-R6', len(sites), 2, 'add_fragment call sites in MoleculeIterator.__iter__')
+    for k, c in enumerate(sorted(sites, key=lambda c: (c.lineno, c.col_offset))):
+        # eager evaluation over all molecules (list / set comprehension) lets several molecules accept the same fragment; a generator inside
+        # any() stops at the first acceptance and is fine
+        p = mod.parent.get(c)
+        eager = None
+        loop = None
+        while p is not None and p is not f:
+            if isinstance(p, (ast.ListComp, ast.SetComp, ast.DictComp)):
+                eager = p
+            if isinstance(p, ast.GeneratorExp):
+                pp = mod.parent.get(p)
+                if not (isinstance(pp, ast.Call) and isinstance(pp.func, ast.Name) and pp.func.id in ('any', 'next')):
+                    eager = p
+            if isinstance(p, (ast.For, ast.While)) and loop is None and eager is None:
+                loop = p
+                break
+            p = mod.parent.get(p)
+        if eager is not None:
+            ctx.emit('C07-R6', False, MOLITER, c, f'`{src(c)[:60]}` is evaluated for every buffered molecule ({type(eager).__name__}): a fragment can join several molecules',
+                     key=f'first-acceptor-only:{k}', what='MoleculeIterator: a fragment is added to every molecule that accepts it')
+            continue
+        if loop is None:
+            ctx.emit('C07-R6', True, MOLITER, c, f'`{src(c)[:60]}` is a single offer (not inside a loop over molecules)', key=f'first-acceptor-only:{k}', nontrivial=False)
+            continue
+        rs = explore(loop.body, mk_atoms({src(c): True}))
+        ends = {r['kind'] for r in rs}
+        ok = bool(rs) and ends <= {'break', 'return', 'raise'}
+        ctx.emit('C07-R6', ok, MOLITER, c, f'after `{src(c)[:60]}` accepted the fragment the loop over the molecules ends on every path ({sorted(ends)})' if ok else
+                 f'after `{src(c)[:60]}` accepted the fragment the loop goes on to the next molecule ({sorted(ends)}): the fragment can join several molecules',
+                 key=f'first-acceptor-only:{k}', what='MoleculeIterator: a fragment is added to every molecule that accepts it')
+    # the cap: OverflowError is raised by _add_fragment (i.e. after the match was established), never by add_fragment itself before comparing
+    g = ctx.fn(MOLECULE, 'Molecule.add_fragment')
+    early = [r_ for r_ in walk_no_nested(g) if isinstance(r_, ast.Raise) and 'OverflowError' in src(r_)]
+    ctx.emit('C07-R6', not early, MOLECULE, early[0] if early else g, 'the fragment cap (OverflowError) is tested only for a fragment that matches the molecule (inside _add_fragment)' if not early else
+             'add_fragment raises OverflowError before the fragment was compared: a full molecule rejects fragments that belong to other molecules', key='cap-after-match',
+             what='Molecule.add_fragment tests the fragment cap before the match')
+    h = ctx.fn(MOLECULE, 'Molecule._add_fragment')
+    has = any(isinstance(r_, ast.Raise) and 'OverflowError' in src(r_) for r_ in walk_no_nested(h))
+    ctx.emit('C07-R6', has, MOLECULE, h, '_add_fragment raises OverflowError when the cap is reached', key='cap-in-_add_fragment', nontrivial=False)
+    # the non-hash path compares the candidate with the molecule as a whole (every associated fragment), not with one chosen fragment
+    fp = g.args.args[1].arg
+    cmps = [c_ for c_ in walk_no_nested(g) if isinstance(c_, ast.Compare) and len(c_.ops) == 1 and isinstance(c_.ops[0], (ast.Eq, ast.NotEq)) and
+            fp in {src(c_.left), src(c_.comparators[0])}]
+    sides = sorted({src(c_.left) if src(c_.comparators[0]) == fp else src(c_.comparators[0]) for c_ in cmps})
+    ok = bool(cmps) and all(not s_.startswith('self.fragments[') for s_ in sides)
+    ctx.emit('C07-R6', ok, MOLECULE, cmps[0] if cmps else g, f'add_fragment compares the candidate fragment with {sides}' +
+             ('' if ok else ': only one associated fragment is consulted, fragments matching another member are refused'), key='compare-with-molecule',
+             what='Molecule.add_fragment compares the candidate with a single associated fragment')
+
+
+META = {
+    'text': ('Decides, for every path of MoleculeIterator.__iter__: the ejection loops remove exactly the molecules they '
+             'selected (index compensation is the linear form j - i over enumerate positions of the same container, in '
+             'both pooling modes); every fragment leaves one read-loop iteration by exactly one of {yielded as own '
+             'molecule, deleted, joined, new molecule} including the OverflowError edge; popped molecules are finalised '
+             'and yielded; both buffer kinds are drained after the input ends; the ejection predicate is exactly "other '
+             'contig or position outside [spanStart - m, spanEnd + m]" (decision procedure evaluated on all orderings) at the current '
+             'fragment; the span is extended on every accepted fragment; a fragment is offered to the buffered molecules only until the first '
+             'accepts it, the fragment cap is tested after the match, and the non-hash path compares with every member. Does NOT decide that the '
+             'margin suffices for the data at hand, nor equality of partitions across schedules at runtime.'),
+    'technique': 'static analysis: linear-form check of removal indices, exception-aware path enumeration of the loop body with constant tracking, abstract interpretation of the ejection predicate over all orderings, who-may-raise and first-acceptor path rules',
+    'design_ref': 'DESIGN.md section 5, C07',
+}
